@@ -84,6 +84,10 @@ def argn_family(rng, n):
 
     # ... and a number far past anything a counter reaches (wave-11 review of e08ed1d: int() of 4400 digits raised)
     out = [ARGN_PROBE, f"Select(Select(ds, lambda e: e.met + arg_{'7' * 4400}), lambda x: x + 1)"]
+    # ... and a number next to a bound on the digits looked at (wave-12 review of e26a402: 18 digits; the counter went on to
+    # 19-digit names that were not reserved)
+    out.append("Select(ds, lambda arg_999999999999999999: Select(Select(arg_999999999999999999.jets, lambda x: x.pt), "
+               "lambda y: y + arg_1000000000000000000))")
     tries = 0
     while len(out) < n and tries < 20 * n:
         tries += 1
